@@ -111,7 +111,7 @@ class Read(Suite):
                     base = rng.choice([0, 1, 1, 5])
                     ids = [i + base for i in range(len(pids))]
                     pp = [-1 if p < 0 else p + base for p in pids]
-                nx = rng.randint(1, 2) if mode == "extra" else 0
+                nx = rng.randint(1, 2) if mode == "extra" else (rng.choice([0, 1, 2]) if mode == "sorted-read" else 0)
                 text, rows, comments = make_text(rng, ids, pp, n_extra=nx, with_tail=(mode == "tail"))
                 case = {"class": mode, "mode": mode, "rows": rows, "comments": comments, "n_extra": nx,
                         "reset_index": rng.random() < 0.5, "source": rng.choice(["text", "bytes", "path"])}
@@ -202,7 +202,7 @@ class Read(Suite):
             # isomorphic to the file's graph: identify nodes by their (unique by construction? no) row -> use full attribute tuple + id map
             by_attr = {}
             for r in rows:
-                by_attr.setdefault((r["type"], r["x"], r["y"], r["z"], r["r"]), []).append(r)
+                by_attr.setdefault((r["type"], r["x"], r["y"], r["z"], r["r"], *r["extra"]), []).append(r)
             if df["id"] != list(range(n)):
                 out.append(("sorted-ids", "sorted read does not number nodes 0..n-1"))
             # greedy match respecting parents: new node k ↔ old id
@@ -210,7 +210,7 @@ class Read(Suite):
             ok = True
             idmap = {r["id"]: r for r in rows}
             for k in range(n):
-                key = (df["type"][k], df["x"][k], df["y"][k], df["z"][k], df["r"][k])
+                key = (df["type"][k], df["x"][k], df["y"][k], df["z"][k], df["r"][k], *[df[f"e{j}"][k] for j in range(case["n_extra"])])
                 cands = [r for r in by_attr.get(key, []) if r["id"] not in old_of.values()]
                 if df["pid"][k] == -1:
                     cands = [r for r in cands if r["pid"] == -1]
@@ -220,7 +220,7 @@ class Read(Suite):
                     cands = [r for r in cands if r["pid"] == old_of.get(df["pid"][k])]
                 if not cands:
                     ok = False
-                    out.append(("sorted-isomorphism", f"node {k} of the sorted read matches no row of the file with the corresponding parent")); break
+                    out.append(("sorted-isomorphism", f"node {k} of the sorted read matches no row of the file (all fields, extra columns included) with the corresponding parent")); break
                 old_of[k] = cands[0]["id"]
             return out
         shift = 0
